@@ -49,6 +49,7 @@ def run(prop, tier, seed):
     known = runner.load_known(prop)
     known_hit = {}
     nvalid = 0; states = 0; distinct = set(); nseal = 0
+    established = {}        # suite -> episodes in which application data was delivered intact at least once
     for r, v1, v2 in zip(runs, vals1, vals2):
         lines = open(r["trace"]).read().splitlines()
         meta = {e["id"]: e for e in r["episodes"]}
@@ -74,8 +75,16 @@ def run(prop, tier, seed):
                 rp = runner.save_replay(prop, "%s_%s_%s" % (m.get("suite", "x"), m.get("kind", "x"), tag), (m.get("lines") or []) + ["reset %s" % tag])
                 violations.append(("trace", "line %d of %s rejected by %s: %s" % (ln, os.path.basename(r["trace"]), which, json.dumps(sig)), rp))
         nvalid += len([e for e in r["episodes"] if e["id"] not in bad])
+        ndl = 0
         for l in lines:
             d = json.loads(l)
+            if d.get("ev") == "deliver" and any(x.get("ok") == 1 for x in d.get("dlv", [])):
+                ndl += 1
+            if d.get("ev") == "Reset":
+                su = meta.get(d.get("tag"), {}).get("suite")
+                if su is not None:
+                    established[su] = established.get(su, 0) + (1 if ndl else 0)
+                ndl = 0
             for s in d.get("sub", []):
                 if s["k"] == "N":
                     nseal += 1
@@ -86,11 +95,15 @@ def run(prop, tier, seed):
     for kind, text, rp in violations[:40]:
         print("VIOLATION property=%s replay=%s" % (prop, rp))
         print("  (%s) %s" % (kind, text[:700]))
+    # vacuity guard: a suite whose honest connection never carries data exercises nothing of the property
+    dead = sorted(su for su in set(e["suite"] for e in eps if e.get("kind") == "edit") if not established.get(su))
+    if dead and not violations:
+        raise SystemExit("INFRA: no application data was ever delivered in the episodes of %s: the property was not exercised there" % ", ".join(dead))
     samples = [{"suite": e["suite"], "dir": e["dir"], "ops": e["ops"], "lens": e["lens"], "script": e["lines"][-12:]} for e in eps[:3]]
     cov = {"states": mc.get("states", 0), "transitions": mc.get("transitions", 0), "traces_validated_against_impl": nvalid, "samples": samples,
            "evaluations": len(eps), "distinct_nontrivial": len(distinct),
            "rule": "episode = suite family x version x direction x payload lengths x edit script (or bit position) on the in-flight ciphertext, followed by further traffic; "
                    "distinct_nontrivial = distinct (version, suite, record origin, authentic?, type, return class, delivered?, error flag) tuples over delivered records",
-           "aead_seals_observed": nseal, "trace_states_checked": states, "known_findings_reported": sorted(known_hit), "exhaustive": False}
+           "aead_seals_observed": nseal, "episodes_with_delivered_data_per_suite": established, "trace_states_checked": states, "known_findings_reported": sorted(known_hit), "exhaustive": False}
     runner.write_evidence(prop, tier, seed, "model_checking", cov, time.time() - t0, len(violations), ASSUME[prop])
     return 1 if violations else 0
